@@ -3,6 +3,7 @@ behaviour."""
 
 from __future__ import annotations
 
+import weakref
 from typing import TYPE_CHECKING
 
 import numpy as np
@@ -50,7 +51,9 @@ class Collective:
         max_dist : float
             Maximum distance for collective motions in Angstrom
         """
-        self.jumps = jumps
+        # Weak back-reference: `Jumps.collective()` memoises this object, a strong
+        # reference would keep the `Jumps` (and its trajectory) alive in the cache
+        self.jumps = weakref.proxy(jumps)
         self.sites = sites
         self.lattice = lattice
         self.max_steps = max_steps
